@@ -22,6 +22,9 @@ const (
 	modeSkipInit
 )
 
+// notHandled is returned by an intrinsic that wants the real body interpreted.
+type notHandled struct{}
+
 type icEntry struct {
 	mode int
 	f    intrinsic
@@ -149,7 +152,14 @@ func (i *interpreter) intercept(fr *frame, fn *ssa.Function, args []value) (valu
 		if fr.caller != nil {
 			fr.cur = fr.caller.cur
 		}
-		return ent.f(i, fr, fn, args), true
+		r := ent.f(i, fr, fn, args)
+		if _, nh := r.(notHandled); nh {
+			if fn.Blocks == nil {
+				i.abort(outUnsupported, "no code for function %s", ent.name)
+			}
+			return nil, false
+		}
+		return r, true
 	case modeOpaque:
 		ps.stubs["opaque:"+ent.name]++
 		return zeroResults(fn), true
@@ -1075,4 +1085,88 @@ func init() {
 	reg("net/http.ProxyFromEnvironment", func(i *interpreter, fr *frame, fn *ssa.Function, a []value) value {
 		return tuple{(*value)(nil), iface{}}
 	})
+}
+
+// ------------------------------------------------------------------ abstract time.Time
+//
+// time.Unix(sec, nsec) divides by 10^9, which no installed solver decides for 64-bit
+// symbolic operands.  Instants built by time.Unix are therefore kept as an abstract value
+// {wall: 0, ext: total nanoseconds since the epoch, loc: marker}; UnixNano/Unix/Nanosecond/
+// Equal/Before/After/IsZero on such a value work on the nanosecond count.  Values from
+// other sources (time.Now stub, literals) keep the real representation.
+
+func (i *interpreter) absLoc() *value {
+	ps := i.ps
+	if ps.absLoc == nil {
+		var v value = zero(i.namedType("time", "Location"))
+		ps.absLoc = &v
+	}
+	return ps.absLoc
+}
+
+func (i *interpreter) isAbsTime(t value) (structure, bool) {
+	st, ok := t.(structure)
+	if !ok || len(st) != 3 {
+		return nil, false
+	}
+	p, ok := st[2].(*value)
+	return st, ok && p != nil && p == i.ps.absLoc
+}
+
+func init() {
+	reg("time.Unix", func(i *interpreter, fr *frame, fn *ssa.Function, a []value) value {
+		T := types.Typ[types.Int64]
+		nanos := i.binop(fr, token.ADD, T, T, i.binop(fr, token.MUL, T, T, a[0], int64(1000000000)), a[1])
+		return structure{uint64(0), nanos, i.absLoc()}
+	})
+	timeM := func(name string, f func(i *interpreter, fr *frame, st structure, a []value) value) {
+		reg("(time.Time)."+name, func(i *interpreter, fr *frame, fn *ssa.Function, a []value) value {
+			st, ok := i.isAbsTime(a[0])
+			if !ok {
+				return notHandled{}
+			}
+			return f(i, fr, st, a)
+		})
+	}
+	T := types.Typ[types.Int64]
+	timeM("UnixNano", func(i *interpreter, fr *frame, st structure, a []value) value { return st[1] })
+	timeM("Unix", func(i *interpreter, fr *frame, st structure, a []value) value {
+		if _, ok := st[1].(sym); ok {
+			i.ps.note("time.Time.Unix() on a symbolic instant: seconds kept as an uninterpreted quotient")
+			return lower(i.ps.ctx.App("unix_seconds", 64, i.term(st[1])), types.Int64)
+		}
+		n := st[1].(int64)
+		s := n / 1000000000
+		if n%1000000000 < 0 {
+			s--
+		}
+		return s
+	})
+	timeM("Nanosecond", func(i *interpreter, fr *frame, st structure, a []value) value {
+		if _, ok := st[1].(sym); ok {
+			return lower(i.ps.ctx.Extract(i.ps.ctx.App("unix_nanos", 64, i.term(st[1])), 63, 0), types.Int)
+		}
+		n := st[1].(int64) % 1000000000
+		if n < 0 {
+			n += 1000000000
+		}
+		return int(n)
+	})
+	timeM("IsZero", func(i *interpreter, fr *frame, st structure, a []value) value { return false })
+	cmp := func(op token.Token) func(i *interpreter, fr *frame, st structure, a []value) value {
+		return func(i *interpreter, fr *frame, st structure, a []value) value {
+			o, ok := i.isAbsTime(a[1])
+			if !ok {
+				i.abort(outUnsupported, "comparison of an abstract instant with a wall-clock time")
+			}
+			return i.binop(fr, op, T, T, st[1], o[1])
+		}
+	}
+	timeM("Equal", cmp(token.EQL))
+	timeM("Before", cmp(token.LSS))
+	timeM("After", cmp(token.GTR))
+	timeM("String", func(i *interpreter, fr *frame, st structure, a []value) value { return "<time>" })
+	timeM("Format", func(i *interpreter, fr *frame, st structure, a []value) value { return "<time>" })
+	timeM("UTC", func(i *interpreter, fr *frame, st structure, a []value) value { return st })
+	timeM("Local", func(i *interpreter, fr *frame, st structure, a []value) value { return st })
 }
